@@ -271,19 +271,25 @@ def with_pars(content, free, ps):
     return c
 
 
-def _real_worker(case):
-    import logging
-    import warnings
-
-    warnings.filterwarnings("ignore")
-    logging.disable(logging.CRITICAL)
-    content, free, states = case["content"], case["free"], case["states"]
-    out = {"langs": {}, "spec": [], "spec2": [], "before": None, "after": None}
+def _model_call(content, decl_seed, t, xs):
+    """S: a freshly built model's own right-hand side"""
+    pool = cg.FnPool()
     try:
-        m = cg.build_model(content, random.Random(case.get("decl_seed", 0)))
-        out["before"] = sorted([k, C.num(v)] for k, v in m.get_parameter_values().items())
+        m2 = cg.build_model(content, random.Random(decl_seed), pool)
+        r = m2(fexpr.to_float(Fraction(t)), [fexpr.to_float(Fraction(x)) for x in xs])
+        return {"ok": [C.num(v) for v in r]}
     except Exception as e:  # noqa: BLE001
-        return {"build_err": type(e).__name__ + ": " + str(e)[:200]}
+        return {"err": [type(e).__name__]}
+    finally:
+        pool.cleanup()
+
+
+def _eval_phase(m, content, case):
+    """generate for every language from the live model `m`, read the texts back, run them; S from `content`"""
+    free, states = case["free"], case["states"]
+    oracle_only = bool(case.get("oracle_only"))
+    out = {"langs": {}, "spec": [], "spec2": [], "before": None, "after": None}
+    out["before"] = sorted([k, C.num(v)] for k, v in m.get_parameter_values().items())
     reads = expected_reads(content)
     gens = _generators()
     for lang in case["langs"]:
@@ -293,6 +299,10 @@ def _real_worker(case):
             ent["text"] = gens[lang](m, free_parameters=list(free) if free else None)
         except Exception as e:  # noqa: BLE001
             ent["gen"] = _canon_gen_exc(e)
+            continue
+        if oracle_only:          # wider expression fragment: only executed, not read back
+            if lang == "py":
+                ent["exec"] = exec_py(ent["text"], states)
             continue
         try:
             P = parse_text(lang, ent["text"])
@@ -319,17 +329,38 @@ def _real_worker(case):
         out["after"] = "raises " + type(e).__name__
     # S: the model itself
     for t, xs, ps in states:
-        try:
-            m2 = cg.build_model(with_pars(content, free, ps), random.Random(case.get("decl_seed", 0)))
-            r = m2(fexpr.to_float(Fraction(t)), [fexpr.to_float(Fraction(x)) for x in xs])
-            out["spec"].append({"ok": [C.num(v) for v in r]})
-        except Exception as e:  # noqa: BLE001
-            out["spec"].append({"err": [type(e).__name__]})
+        out["spec"].append(_model_call(with_pars(content, free, ps), case.get("decl_seed", 0), t, xs))
+        if oracle_only:
+            out["spec2"].append(None)
+            continue
         try:
             out["spec2"].append(C.Spec(with_pars(content, free, ps)).answer(["call", t, xs]))
         except Inexact:
             out["spec2"].append("inexact")
     return out
+
+
+def _real_worker(case):
+    import logging
+    import warnings
+
+    warnings.filterwarnings("ignore")
+    logging.disable(logging.CRITICAL)
+    pool = cg.FnPool()
+    try:
+        try:
+            m = cg.build_model(case["content"], random.Random(case.get("decl_seed", 0)), pool)
+            m.get_parameter_values()
+        except Exception as e:  # noqa: BLE001
+            return {"build_err": type(e).__name__ + ": " + str(e)[:200]}
+        out = _eval_phase(m, case["content"], case)
+        if case.get("session"):
+            # same process, same model and function objects; the module-level constants the functions read change
+            pool.mutate()
+            out["phase2"] = _eval_phase(m, cg.content_phase2(case["content"]), case)
+        return out
+    finally:
+        pool.cleanup()
 
 
 _pool = None
@@ -367,9 +398,9 @@ def canon_M_run(g, r):
     return {"err": [cls]}
 
 
-def driver_requests(cases):
-    return [{"op": "c07", "content": strip_content(c["content"]), "bad": c.get("bad", []), "free": c["free"],
-             "langs": c["langs"], "states": c["states"]} for c in cases]
+def driver_request(c, content=None):
+    return {"op": "c07", "content": strip_content(content if content is not None else c["content"]),
+            "bad": c.get("bad", []), "free": c["free"], "langs": c["langs"], "states": c["states"]}
 
 
 def strip_content(content):
@@ -389,30 +420,51 @@ def bad_names(content):
 def gen_case(ctx, i):
     rng = ctx.rng
     r = rng.random()
-    if r < 0.55:      # inside the hypotheses of C07_equiv_partial
+    extra = {}
+    vals = (0, 1, 2, 3, 5)
+    if r < 0.34:      # inside the hypotheses of C07_equiv_partial
         content = cg.gen_content(rng, all_vars_have_eq=True, p_ia_par=0.0, p_ia_var=0.15)
         stratum = "clean"
-    elif r < 0.75:
+    elif r < 0.46:
         content = cg.gen_content(rng, all_vars_have_eq=False, p_ia_par=0.0, p_ia_var=0.15)
         stratum = "noeq"
-    elif r < 0.92:
+    elif r < 0.58:
         content = cg.gen_content(rng, all_vars_have_eq=rng.random() < 0.7, p_ia_par=0.12, p_ia_var=0.2)
         stratum = "ia"
-    else:             # a function that cannot be translated
+    elif r < 0.64:    # a function that cannot be translated
         content = cg.gen_content(rng, all_vars_have_eq=True, p_ia_par=0.0, p_ia_var=0.0)
         kind = rng.choice(["derived", "rxns"] if content["derived"] else ["rxns"])
         how = "loop" if rng.random() < 0.3 else True
         rng.choice(content[kind])[1]["bad"] = how
         stratum = "untranslatable-loop" if how == "loop" else "untranslatable"
+    elif r < 0.78:    # few variables, many reactions, mostly computed coefficients, function objects shared between
+        #               components (rates, derived values, coefficients) with different argument lists
+        content = cg.gen_content(rng, n_vars=(1, 2), n_pars=(2, 3), n_comps=(3, 7), p_dyn_coef=0.75,
+                                 all_vars_have_eq=True, name_fn=cg.Namer(rng, 0.6))
+        stratum = "shared-functions"
+    elif r < 0.90:    # functions defined in modules of their own that have module-level float constants: some are read
+        #               by the function, some only share a name with a parameter; then a session step: the constants
+        #               change and code is generated again from the same model in the same process
+        content = cg.gen_content(rng, all_vars_have_eq=True, p_modconst=0.6, p_dyn_coef=0.4,
+                                 name_fn=cg.Namer(rng, 0.3))
+        stratum = "module-constants"
+        extra["session"] = cg.has_session(content)
+    else:             # wider expression fragment (/ % ** unary minus, nested): Python text only, executed, R vs S
+        content = cg.gen_content(rng, all_vars_have_eq=True, rich=True, p_dyn_coef=0.3, small=(1, 2, 4), p_time=0.0,
+                                 n_pars=(1, 3))
+        stratum = "wider-expressions"
+        extra["oracle_only"] = True
+        vals = (1, 2, 4, 8)
     plain = [k for k, v in content["pars"] if "v" in v]
     free = rng.sample(plain, rng.randint(1, len(plain))) if plain and rng.random() < 0.3 else []
     states = []
     for _ in range(2):
-        st = C.gen_state(rng, content)
+        st = C.gen_state(rng, content, vals=vals)
         states.append([str(rng.choice([0, 1, 2, "1/2"])), [v for _, v in st],
-                       [str(rng.choice([1, 2, 3, "1/2"])) for _ in free]])
-    return {"content": content, "bad": bad_names(content), "free": free, "langs": list(LANGS), "states": states,
-            "decl_seed": rng.randrange(1 << 30), "stratum": stratum}
+                       [str(rng.choice([1, 2, 4, "1/2"] if extra.get("oracle_only") else [1, 2, 3, "1/2"])) for _ in free]])
+    return dict({"content": content, "bad": bad_names(content), "free": free,
+                 "langs": ["py"] if extra.get("oracle_only") else list(LANGS), "states": states,
+                 "decl_seed": rng.randrange(1 << 30), "stratum": stratum}, **extra)
 
 
 def exhaustive_cases(thorough: bool):
@@ -456,12 +508,44 @@ def exhaustive_cases(thorough: bool):
                     out.append({"content": content, "bad": [], "free": list(free), "langs": list(LANGS),
                                 "states": [["1", [str(2 + i) for i in range(nv)], ["3"] * len(free)]],
                                 "decl_seed": len(out), "stratum": "exhaustive"})
+    # every pair of coefficient kinds for one variable in two reactions: a number, or a computed coefficient from
+    # one of three helper functions (one of arity 2) with every choice of parameter arguments -- the same function
+    # object with the same / other arguments, different functions with the same arguments, ...
+    kinds = [{"c": "-1"},
+             {"args": ["n1"], "e": ["neg", ["a", 0]], "name": "cf"}, {"args": ["n2"], "e": ["neg", ["a", 0]], "name": "cf"},
+             {"args": ["n1"], "e": ["+", ["a", 0], ["a", 0]], "name": "cg"},
+             {"args": ["n1", "n2"], "e": ["-", ["a", 0], ["a", 1]], "name": "cf2"},
+             {"args": ["n2", "n1"], "e": ["-", ["a", 0], ["a", 1]], "name": "cf2"}]
+    for k1, k2 in itertools.product(kinds, repeat=2):
+        content = {"vars": [["x", {"v": "1"}]], "pars": [["n1", {"v": "2"}], ["n2", {"v": "3"}]], "derived": [],
+                   "rxns": [["r1", {"args": ["x"], "e": F1[0], "st": [["x", copy.deepcopy(k1)]]}],
+                            ["r2", {"args": ["n1", "x"], "e": F2[1], "st": [["x", copy.deepcopy(k2)]]}]]}
+        out.append({"content": content, "bad": [], "free": [], "langs": list(LANGS), "states": [["1", ["4"], []]],
+                    "decl_seed": len(out), "stratum": "exhaustive-coefficients"})
     return out
 
 
 def evaluate(cases, use_driver=True):
+    """-> [(R, M)] ; for a session case M = {"phase1": …, "phase2": …}; M is None for oracle-only cases"""
     Rs = pool().map(_real_worker, cases, chunksize=4)
-    Ms = driver.call_batch(driver_requests(cases)) if use_driver else [None] * len(cases)
+    Ms = [None] * len(cases)
+    if use_driver:
+        reqs, where = [], []
+        for i, c in enumerate(cases):
+            if c.get("oracle_only"):
+                continue
+            reqs.append(driver_request(c))
+            where.append((i, "phase1"))
+            if c.get("session"):
+                reqs.append(driver_request(c, cg.content_phase2(c["content"])))
+                where.append((i, "phase2"))
+        res = driver.call_batch(reqs)
+        for (i, ph), r in zip(where, res):
+            if cases[i].get("session"):
+                Ms[i] = Ms[i] or {}
+                Ms[i][ph] = r
+            else:
+                Ms[i] = r
     return list(zip(Rs, Ms))
 
 
@@ -469,7 +553,8 @@ def evaluate(cases, use_driver=True):
 
 
 def sub_case(case, lang, si=None):
-    c = {k: case[k] for k in ("content", "bad", "free", "decl_seed") if k in case}
+    case = case.get("_orig", case)       # a violation of the second phase is replayed as the whole session
+    c = {k: case[k] for k in ("content", "bad", "free", "decl_seed", "session", "oracle_only") if k in case}
     c["langs"] = [lang]
     c["states"] = case["states"] if si is None else [case["states"][si]]
     return c
@@ -493,14 +578,57 @@ def classify(case, lang, ent, feats):
 
 def judge_case(ctx, case, R, M, extern=None):
     """extern: optional {lang: [results]} from node / rustc (thorough tier)"""
+    if "build_err" in R and case.get("oracle_only") and R["build_err"].startswith("ZeroDivisionError"):
+        ctx.hist["skipped_model_raises"] = ctx.hist.get("skipped_model_raises", 0) + 1
+        return      # the model itself divides by zero at its initial state
     if "build_err" in R:
         ctx.violation(case, R, "harness could not build the model")
         return
+    if case.get("oracle_only"):
+        judge_oracle_only(ctx, case, R)
+        return
+    if case.get("session") and "phase2" in R:
+        M1 = None if M is None else M.get("phase1")
+        M2 = None if M is None else M.get("phase2")
+        judge_phase(ctx, case, R, M1, extern)
+        case2 = dict(case, content=cg.content_phase2(case["content"]), _orig=case,
+                     stratum=case.get("stratum", "?") + "/after-constants-changed")
+        judge_phase(ctx, case2, R["phase2"], M2, None, tag=" [second generation, after module constants changed]")
+        return
+    judge_phase(ctx, case, R, M, extern)
+
+
+def judge_oracle_only(ctx, case, R):
+    """wider expression fragment: the Python text is executed and compared with the model (relative 1e-9); no Lean
+    model, no read-back of the text"""
+    ctx.count({k: case[k] for k in ("content", "free", "states", "bad")}, f"{case.get('stratum', '?')}:{cg.shape_of(case['content'])}")
+    ent = R["langs"]["py"]
+    sc = sub_case(case, "py")
+    if all("err" in S or not cg.finite_answer(S) for S in R["spec"]):
+        ctx.hist["skipped_model_raises"] = ctx.hist.get("skipped_model_raises", 0) + 1
+        return
+    if "gen" in ent:
+        ctx.judge(sc, ent["gen"], {"ok": "text emitted"}, None, what="py: generation raised (wider expression fragment)")
+        return
+    classes = cg.rich_classes(case["content"])
+    fid = "F-C07-10" if "recip-modulus" in classes else "F-C07-11" if "shared-modulus" in classes else None
+    for si, _ in enumerate(case["states"]):
+        S, Re = R["spec"][si], ent["exec"][si]
+        if "err" in S or not cg.finite_answer(S):
+            ctx.hist["skipped_model_raises"] = ctx.hist.get("skipped_model_raises", 0) + 1
+            continue
+        if cg.close(Re, S):
+            Re = S
+        ctx.judge(sub_case(case, "py", si), Re, S, None, finding=fid,
+                  what="py: generated code vs model (wider expression fragment)")
+
+
+def judge_phase(ctx, case, R, M, extern=None, tag=""):
     feats = cg.features(case["content"])
     ctx.count({k: case[k] for k in ("content", "free", "states", "bad")}, f"{case.get('stratum', '?')}:{cg.shape_of(case['content'])}"
               + ("+free" if case["free"] else ""))
     # the model must be left as it was (F-C07-6, repaired)
-    ctx.judge(sub_case(case, "py"), R["after"], R["before"], None, what="model parameter values after code generation")
+    ctx.judge(sub_case(case, "py"), R["after"], R["before"], None, what="model parameter values after code generation" + tag)
     # the Lean hypothesis of C07_equiv_partial, restated on the wire form
     if M is not None:
         in_scope = not (feats["ia_par"] or feats["dyn_coef"] or feats["var_without_eq"]) and len(case["content"]["vars"]) > 0
@@ -533,7 +661,7 @@ def judge_case(ctx, case, R, M, extern=None):
             if "ok" not in Mg:
                 ctx.add_drift(sc, ent["shape"], Mg, f"{lang}: Lean generator fails where the code emits text")
             elif model_shape(Mg["ok"]) != ent["shape"]:
-                ctx.add_drift(sc, ent["shape"], model_shape(Mg["ok"]), f"{lang}: program shape")
+                ctx.add_drift(sc, ent["shape"], model_shape(Mg["ok"]), f"{lang}: program shape{tag}")
         if lang == "rs" and py_trees:
             ent["rs_paren"] = any(py_trees.get(k) is not None and py_trees[k] != tr for k, tr in map(tuple, ent["trees"]))
         fid, in_model = classify(case, lang, ent, feats)
@@ -572,7 +700,7 @@ def judge_case(ctx, case, R, M, extern=None):
                 Ms = M["spec"][si]
                 if "ok" in Ms and Ms != S:
                     ctx.add_drift(sub_case(case, lang, si), S, Ms, "callRhs vs real model")
-            ctx.judge(sub_case(case, lang, si), Rv, S, Mv, finding=fid, what=f"{lang}: generated code vs model")
+            ctx.judge(sub_case(case, lang, si), Rv, S, Mv, finding=fid, what=f"{lang}: generated code vs model{tag}")
 
 
 # --------------------------------------------------------------------------- real toolchains (thorough tier)
@@ -756,6 +884,24 @@ CORPUS = [
     {"content": {"vars": [["x", {"v": "1"}], ["y", {"v": "1"}]], "pars": [["k", {"v": "2"}]], "derived": [],
                  "rxns": [["r", {"args": ["x", "k"], "e": ["*", ["a", 0], ["a", 1]], "st": [["x", {"c": "-2", "int": True}], ["y", {"c": "1"}]]}]]},
      "free": [], "states": [["0", ["3", "5"], []]], "stratum": "corpus"},
+]
+
+
+def _rich(args, e):
+    return {"args": args, "e": ["a", 0], "rich": True, "src": {"e": e, "floats": []}}
+
+
+CORPUS += [
+    # wider fragment, remainder with a reciprocal divisor: x % (1/p) is printed `(x % 1/p)` (F-C07-10)
+    {"content": {"vars": [["x", {"v": "4"}]], "pars": [["p", {"v": "4"}]], "derived": [],
+                 "rxns": [["r", dict(_rich(["x", "p"], ["%", ["/", ["c", "125"], ["a", 0]], ["/", ["a", 1], ["*", ["a", 1], ["a", 1]]]]),
+                                     st=[["x", {"c": "-1"}]])]]},
+     "free": [], "states": [["0", ["4"], []]], "stratum": "corpus", "oracle_only": True, "langs": ["py"]},
+    # wider fragment, remainder whose operands share a factor: (-5/2*x) % x is simplified by sympy to -x/2 (F-C07-11)
+    {"content": {"vars": [["x", {"v": "4"}]], "pars": [["p", {"v": "4"}]], "derived": [],
+                 "rxns": [["r", dict(_rich(["x"], ["%", ["*", ["neg", ["a", 0]], ["c", "5/2"]], ["a", 0]]),
+                                     st=[["x", {"c": "-1"}]])]]},
+     "free": [], "states": [["0", ["4"], []]], "stratum": "corpus", "oracle_only": True, "langs": ["py"]},
 ]
 
 
